@@ -26,6 +26,7 @@ inductive SFrame where
   | headers (eos : Bool) (fields : List Hpack.Field)      -- request head / trailers (`eos`)
   | data (len : Nat) (eos : Bool)                         -- only the length of the payload matters
   | reset (reason : Reason)
+  | pushPromise (promisedKey promisedId : Nat) (fields : List Hpack.Field)
   deriving Repr, DecidableEq
 
 def SFrame.isData : SFrame → Bool
@@ -35,9 +36,10 @@ def SFrame.isData : SFrame → Bool
 /-- header fields as `HeaderMap` iteration hands them over -/
 abbrev Fields := List (Bytes × List Bytes)
 
-/-- `recv::Event` (client side) -/
+/-- `recv::Event` -/
 inductive REvent where
-  | headers (status : Bytes) (fields : Fields)
+  | headers (status : Bytes) (fields : Fields)            -- `Headers(Client(response))`
+  | request (method uri : Bytes) (fields : Fields)        -- `Headers(Server(request))`, `uri` as `Display` prints it
   | informational (status : Bytes) (fields : Fields)
   | data (payload : Bytes) (isBudgeted : Bool)
   | trailers (fields : Fields)
@@ -292,6 +294,8 @@ structure Streams where
   refs : Nat := 1
   wakes : List String := []
   panicked : Option String := none
+  /-- set when the model meets an input it does not cover -/
+  unsupported : Option String := none
   deriving Repr
 
 /-- the six intrusive queues -/
@@ -324,6 +328,11 @@ def panic (s : Streams) (msg : String) : Streams :=
   match s.panicked with
   | some _ => s
   | none => { s with panicked := some msg }
+
+def unsup (s : Streams) (msg : String) : Streams :=
+  match s.unsupported with
+  | some _ => s
+  | none => { s with unsupported := some msg }
 
 def wake (s : Streams) (tags : List String) : Streams := { s with wakes := s.wakes ++ tags }
 
